@@ -103,7 +103,7 @@ Definition tp_of (c : case) : string -> option Z := fun s => assoc s (k_times c)
 Definition check (c : case) : list string :=
   let r := reader_impl (tp_of c) (k_input c) in
   let st := r_st r in
-  (if String.eqb (r_out r) (k_out c) then [] else ["out"]) ++
+  (if String.eqb (r_yaml r) (k_out c) then [] else ["out"]) ++
   (if list_eqb String.eqb (r_lines r) (k_lines c) then [] else ["lines"]) ++
   (if list_eqb ocomment_eqb (map proj_comment (r_comments r)) (k_comments c) then [] else ["comments"]) ++
   (if list_eqb2 diag_eqb (r_diags r) (k_diags c) then [] else ["diags"]) ++
